@@ -254,11 +254,13 @@ WorkerRecord(o, r) ==
       o4 == FoldSnap(o3, w, r.post.procs, done, resumed)
       hosted == {q \in Pids : o4.host[q] = w}
       o5a == HeapRules(o4, w, r.post.heap)
-      \* C16 (space): a scripted process is parked in a select with an EMPTY operand stack - every script operation
+      \* C16 (space): a scripted process is parked in a select - and finishes normally - with an EMPTY operand stack: every script operation
       \* is a statement of its own, so whatever a completed select, a filter verdict or a call left behind would
       \* stay there for the rest of the process's life (one cell per iteration in a loop)
       parkedDirty == {r.post.procs[i].p : i \in {i \in 1..Len(r.post.procs) :
-                         r.post.procs[i].p \in ToSet(r.post.selecting) /\ r.post.procs[i].stack # 0}}
+                         (r.post.procs[i].p \in ToSet(r.post.selecting) \/
+                          (r.post.procs[i].result # <<>> /\ r.post.procs[i].result[1].ok /\ ~r.post.procs[i].persistent)) /\
+                         r.post.procs[i].stack # 0}}
       o5 == IF o.meta.entry = 0 THEN o5a
             ELSE Chk(o5a, parkedDirty = {}, "C16", "ParkedStackEmpty",
                      {<<r.post.procs[i].p, r.post.procs[i].stack>> : i \in {i \in 1..Len(r.post.procs) : r.post.procs[i].p \in parkedDirty}})
